@@ -157,9 +157,104 @@ func idsOf(xs []interface{}) []string {
 	return out
 }
 
+// limitedCrew: a machine whose walk is stopped by the crew's step limit in the middle of
+// a chain of emitting actions - so that the next message finds it resting at an action
+// node and is not consumed.  Whatever the actions emitted before the limit must be
+// reported, message by message.
+func limitedCrew(cfg fw.Config, rec *fw.Rec) {
+	for _, L := range []int{1, 2, 3, 5, 8} {
+		for variant := 0; variant < 4; variant++ {
+			u := &gen.Uid{Prefix: fmt.Sprintf("L%d_%d_", L, variant)}
+			// a ring of `ring` action nodes, each emitting 1-2 ids; variant 3 has a message node in the ring
+			ring := 2 + variant%3
+			if variant == 3 {
+				ring = 3
+			}
+			a := &ref.ASpec{Name: u.Prefix + "ring", Nodes: map[string]*ref.ANode{}}
+			name := func(i int) string { return fmt.Sprintf("r%d", i%ring) }
+			for i := 0; i < ring; i++ {
+				a.Nodes[name(i)] = &ref.ANode{Action: prog(u, 1+i%2, "none", false, "nobody"), Branching: &ref.ABranching{Type: "bindings", Branches: []*ref.ABranch{{Target: name(i + 1)}}}}
+			}
+			if variant == 3 {
+				a.Nodes["r1"] = &ref.ANode{Branching: &ref.ABranching{Type: "message", Branches: []*ref.ABranch{{HasPattern: true, Pattern: map[string]interface{}{"tick": "?t"}, Target: "r2"}}}}
+			}
+			desc := map[string]interface{}{"limit": L, "ring": ring, "variant": variant, "spec": a}
+			ctx := context.Background()
+			c, _, err := siox.NewCrew(ctx, L, 4, 4)
+			if err != nil {
+				rec.Inconclusive("crew: " + err.Error())
+				return
+			}
+			src, err := siox.Inline(a.JSON(false))
+			if err == nil {
+				err = c.SetMachine(ctx, "m", src, &core.State{NodeName: "r0", Bs: match.Bindings{}})
+			}
+			if err != nil {
+				rec.Inconclusive("ring machine: " + err.Error())
+				return
+			}
+			st := ref.AState{Node: "r0", Bs: map[string]interface{}{}}
+			okAll := true
+			for k := 0; k < 6 && okAll; k++ {
+				msg := map[string]interface{}{"to": "m", "tick": float64(k)}
+				// the reference: at most L steps, the message pending until consumed
+				var want []string
+				pending := interface{}(msg)
+				for i := 0; i < L; i++ {
+					o := ref.Step(a, st, pending, ref.Env{})[0]
+					if o.Consumed {
+						pending = nil
+					}
+					for _, e := range o.Emitted {
+						want = append(want, e.(map[string]interface{})["id"].(string))
+					}
+					if o.Err || o.To == nil {
+						break
+					}
+					st = *o.To
+				}
+				var res interface{}
+				var got []string
+				if rec.Guard("C08:crew-limited", desc, func() {
+					r, perr := c.ProcessMsg(ctx, fw.Deep(msg))
+					if perr != nil {
+						res = perr
+						return
+					}
+					for _, batch := range r.Emitted {
+						got = append(got, idsOf(batch)...)
+					}
+				}) {
+					return
+				}
+				rec.Eval(1)
+				if res != nil {
+					rec.Violation("C08:crew-limited:process-error", fmt.Sprint(res), desc)
+					okAll = false
+					break
+				}
+				if fw.Canon(got) != fw.Canon(want) {
+					rec.Violation("C08:crew-limited:missing-or-extra", fmt.Sprintf("message %d to a machine whose walks are cut short by the step limit %d: reported emission ids %v, the completed actions emitted %v", k, L, got, want), desc)
+					okAll = false
+					break
+				}
+				if m := c.Machines["m"]; m == nil || m.State == nil || m.State.NodeName != st.Node {
+					rec.Violation("C08:crew-limited:state", fmt.Sprintf("after message %d the machine is at %v, the reference at %s", k, m, st.Node), desc)
+					okAll = false
+					break
+				}
+			}
+			if okAll {
+				rec.Bucket("crew_walks_cut_short_by_the_limit_checked")
+				rec.Nontrivial(fmt.Sprintf("limited-%d-%d", L, variant))
+			}
+		}
+	}
+}
+
 func Run(cfg fw.Config, rec *fw.Rec) {
-	rec.Rule = "three-node action chains start->n1->n2->done; each action is 'emit k unique ids, mutate, fail by f [, emit again]' for k in 0..4 and f in {none, throw, infinite loop under a deadline, return number/string/array/function/NaN/bool, _.out(unserialisable), _.out(NaN)}; branches optionally guarded by guards that emit and then accept / reject / fail, also 2-7 rejecting emitting guards or 5-12 non-matching branches before the branch that is followed; 3 error settings; observed through Stride.Emitted, Walked.DoEmitted and sio.Crew Result.Emitted (one machine, and two machines with different emissions processing one message: one batch per machine); the observed id sequence must equal the ids of the reference's successfully completed actions in execution order; non-trivial = chain in which some action emitted and some action or guard failed or rejected; distinct by chain description"
-	rec.Required = []string{"walk_checked", "crew_checked", "crew_two_machines_checked", "failure_after_emit", "failure_timeout", "failure_bad_return", "failure_out_unserialisable", "guard_emitted_nothing", "several_rejecting_guards_before_followed_branch", "many_branches_before_followed_branch", "position_first", "position_middle", "position_last"}
+	rec.Rule = "three-node action chains start->n1->n2->done; each action is 'emit k unique ids, mutate, fail by f [, emit again]' for k in 0..4 and f in {none, throw, infinite loop under a deadline, return number/string/array/function/NaN/bool, _.out(unserialisable), _.out(NaN)}; branches optionally guarded by guards that emit and then accept / reject / fail, also 2-7 rejecting emitting guards or 5-12 non-matching branches before the branch that is followed; 3 error settings; observed through Stride.Emitted, Walked.DoEmitted and sio.Crew Result.Emitted (one machine, and two machines with different emissions processing one message: one batch per machine; and a machine on a ring of emitting action nodes under crew step limits 1-8, so that walks are cut short and later messages find it resting at an action node); the observed id sequence must equal the ids of the reference's successfully completed actions in execution order; non-trivial = chain in which some action emitted and some action or guard failed or rejected; distinct by chain description"
+	rec.Required = []string{"walk_checked", "crew_checked", "crew_two_machines_checked", "crew_walks_cut_short_by_the_limit_checked", "failure_after_emit", "failure_timeout", "failure_bad_return", "failure_out_unserialisable", "guard_emitted_nothing", "several_rejecting_guards_before_followed_branch", "many_branches_before_followed_branch", "position_first", "position_middle", "position_last"}
 	rec.Assume = []string{"a timed-out action is the last one executed in its walk (later actions under an expired context may legitimately either run or time out)"}
 	type job struct {
 		ks      []int
@@ -420,4 +515,5 @@ func Run(cfg fw.Config, rec *fw.Rec) {
 			}
 		}
 	})
+	limitedCrew(cfg, rec)
 }
